@@ -82,7 +82,7 @@ impl RegistryPackageResolver {
                     (key.version.cloned(), *span),
                 ))
             })
-            .collect::<Result<IndexMap<PackageName, (Option<Version>, SourceSpan)>, Error>>()?;
+            .collect::<Result<Vec<(PackageName, (Option<Version>, SourceSpan))>, Error>>()?;
 
         // fetch required package logs and return error if any not found
         if let Some(bar) = self.bar.as_ref() {
@@ -91,14 +91,24 @@ impl RegistryPackageResolver {
 
         match self
             .client
-            .fetch_packages(package_names_with_source_span.keys())
+            .fetch_packages(
+                package_names_with_source_span
+                    .iter()
+                    .map(|(name, _)| name)
+                    .collect::<indexmap::IndexSet<_>>(),
+            )
             .await
         {
             Ok(_) => {}
             Err(ClientError::PackageDoesNotExist { name, .. }) => {
                 return Err(Error::PackageDoesNotExist {
                     name: name.to_string(),
-                    span: package_names_with_source_span.get(&name).unwrap().1,
+                    span: package_names_with_source_span
+                        .iter()
+                        .find(|(n, _)| *n == name)
+                        .unwrap()
+                        .1
+                         .1,
                 });
             }
             Err(err) => {
